@@ -58,7 +58,10 @@ def expect_pattern(tsrc):
         return out, tsrc
 
 
-HEADER = ["from dataclasses import dataclass", "from typing import *", "from enum import Enum", "LOG = []", ""]
+HEADER = ["from dataclasses import dataclass", "from typing import *", "from enum import Enum", "from apischema import schema", "LOG = []", ""]
+# nullable arguments without a Python default (the argument may be omitted or null: the resolver receives None), plain or behind an annotation
+NULLABLE_ARGS = {"x: Optional[int]": "", "x: Annotated[Optional[int], schema(min=0)]": "(x: null)", "x: Annotated[Optional[int], schema(max=9)]": "",
+                 "x: Annotated[Optional[int], schema(min=0)] = None": "(x: 4)"}
 
 
 def run(prop, seed, budget, ctx):
@@ -71,7 +74,7 @@ def run(prop, seed, budget, ctx):
         t, v, cl, sel = gen(rnd, i)
         src += cl
         # an argument: int with / without default, Optional[int]
-        arg = rnd.choice([None, "x: int", "x: int = 5", "x: Optional[int] = None", "x: List[int]"])
+        arg = rnd.choice([None, "x: int", "x: int = 5", "x: Optional[int] = None", "x: List[int]"] + list(NULLABLE_ARGS))
         cases.append((i, t, v, sel, arg))
     for i, t, v, sel, arg in cases:
         src += [f"def q{i}({arg or ''}) -> {t}:", f"    LOG.append(({i}, {'x' if arg else 'None'}))", f"    return {v}", ""]
@@ -103,9 +106,9 @@ def run(prop, seed, budget, ctx):
             if a is None: fail("argument-missing-from-the-schema", info=info, args=list(f.args))
             else:
                 apat, aleaf = unwrap(a.type)
-                awant = {"x: int": ["!"], "x: int = 5": ["!"], "x: Optional[int] = None": ["?"], "x: List[int]": ["!", "!"]}[arg]
+                awant = {"x: int": ["!"], "x: int = 5": ["!"], "x: Optional[int] = None": ["?"], "x: List[int]": ["!", "!"]}.get(arg, ["?"])
                 if apat != awant: fail("argument-nullability", info=info, got=apat, want=awant)
-            call = {"x: int": "(x: 3)", "x: int = 5": "", "x: Optional[int] = None": "(x: null)", "x: List[int]": "(x: [1, 2])"}[arg]
+            call = {"x: int": "(x: 3)", "x: int = 5": "", "x: Optional[int] = None": "(x: null)", "x: List[int]": "(x: [1, 2])", **NULLABLE_ARGS}[arg]
         query = "{ q%d%s%s }" % (i, call, (" { %s }" % sel) if sel else "")
         mod.LOG.clear()
         res = graphql.graphql_sync(schema, query)
@@ -115,7 +118,7 @@ def run(prop, seed, budget, ctx):
         if res.errors or res.data[f"q{i}"] != want_data:
             fail("execution-differs-from-serialize", info=info, query=query, errors=[str(e) for e in res.errors or []][:2], data=res.data, want=want_data)
         elif arg:
-            want_x = {"x: int": 3, "x: int = 5": 5, "x: Optional[int] = None": None, "x: List[int]": [1, 2]}[arg]
+            want_x = {"x: int": 3, "x: int = 5": 5, "x: Optional[int] = None": None, "x: List[int]": [1, 2]}.get(arg, 4 if NULLABLE_ARGS.get(arg) == "(x: 4)" else None)
             if mod.LOG != [(i, want_x)]: fail("resolver-did-not-receive-the-deserialized-argument", info=info, log=list(mod.LOG), want=want_x)
         if len(samples) < 4 and t not in NAMES: samples.append({"query": query, "return_type": t, "graphql_type": str(f.type), "data": res.data})
         # invalid argument: a GraphQL error, resolver not invoked
